@@ -773,8 +773,13 @@ class DocutilsRenderer(RendererProtocol):
         # TODO this is purely to mimic docutils, but maybe we don't need it?
         # (since we have the slugify logic below)
         name = nodes.fully_normalize_name(implicit_text)
-        node["names"].append(name)
+        # only the new name is registered as an implicit target:
+        # explicit names (e.g. from an id attribute) have already been registered,
+        # and docutils would otherwise treat them as duplicates of themselves
+        explicit_names = node["names"]
+        node["names"] = [name]
         self.document.note_implicit_target(node, node)
+        node["names"] = [*explicit_names, *node["names"]]
 
         if level > self.md_config.heading_anchors:
             return
